@@ -215,7 +215,7 @@ impl Property for C14 {
         "C14"
     }
     fn rule(&self) -> String {
-        "templates: programs of the generator (all features, chain-specific directives in 70% of them) lowered by the real front end, with type-correct but hostile arguments (integers from the i128 boundary set, byte strings of length 0/1/27..33/56/57/64 where 28 or 32 are expected, addresses of every Shelley kind, Byron-like, pointer, wrong-length and empty ones, UTxO references with short ids and index u32::MAX), stores that are empty, huge, hold negative amounts, odd class names and datums of any shape, protocol parameters with 0 / u64::MAX coefficients and missing cost models, fresh and used compiler instances; wallets: one input query (by address and / or token) against wallets with 0..120 full matches and 0..60 partial ones (both sides of the selection window of 50 and of the 10 references an error message lists); fee-loop: a payment template with change = source - quantity - fees, swept in steps of the fee coefficient across the amounts where the change crosses a CBOR width boundary (where the loop fee -> transaction -> fee has a late fixed point or none), with round budgets 0, 1, 2, 3, 10, 100; deep-chains: chains of 4..64 operations (add, sub, negate, coercion, property) over a pending parameter / fee / input datum, through reduce (twice), apply_args, apply_fees and reduce - each stage must return within the case budget; trees: random well-formed IR trees (every Expression / Param / op variant, depth <= 6) a client could send, with arguments for their parameters. Every public back-end entry point is driven (find_params, find_queries, is_constant, apply_args, apply_fees, Node::apply(compiler), reduce, apply_inputs, compile, inputs::resolve, resolve_tx). Oracle: each call returns; a panic (hook: message, file, first in-repo function), an abort (worker signal) or a reproducible watchdog overrun is a violation. Non-trivial: every case; distinct = distinct (IR, arguments).".into()
+        "templates: programs of the generator (all features, chain-specific directives in 70% of them) lowered by the real front end, with type-correct but hostile arguments (integers from the i128 boundary set, byte strings of length 0/1/27..33/56/57/64 where 28 or 32 are expected, addresses of every Shelley kind, Byron-like, pointer, wrong-length and empty ones, UTxO references with short ids and index u32::MAX), stores that are empty, huge, hold negative amounts, odd class names and datums of any shape, protocol parameters with 0 / u64::MAX coefficients and missing cost models, fresh and used compiler instances; wallets: one input query (by address and / or token) against wallets with 0..120 full matches and 0..60 partial ones (both sides of the selection window of 50 and of the 10 references an error message lists); fee-loop: a payment template with change = source - quantity - fees, swept in steps of the fee coefficient across the amounts where the change crosses a CBOR width boundary (where the loop fee -> transaction -> fee has a late fixed point or none), with round budgets 0, 1, 2, 3, 10, 100; directives (exhaustive): cardano_publish / plutus_witness / native_witness directives x 11 version numbers (0..4, 255..257, -1, 2^64, i128::MAX) x 9 kinds of script bytes (valid native script, empty, garbage, truncated, native scripts nested 10..5000 deep, Plutus-like) through compile; deep-native-script: native scripts nested 20000..200000 deep in a native_witness / a version-0 cardano_publish; deep-chains: chains of 4..64 operations (add, sub, negate, coercion, property) over a pending parameter / fee / input datum, through reduce (twice), apply_args, apply_fees and reduce - each stage must return within the case budget; trees: random well-formed IR trees (every Expression / Param / op variant, depth <= 6) a client could send, with arguments for their parameters. Every public back-end entry point is driven (find_params, find_queries, is_constant, apply_args, apply_fees, Node::apply(compiler), reduce, apply_inputs, compile, inputs::resolve, resolve_tx). Oracle: each call returns; a panic (hook: message, file, first in-repo function), an abort (worker signal) or a reproducible watchdog overrun is a violation. Non-trivial: every case; distinct = distinct (IR, arguments).".into()
     }
     fn assumptions(&self) -> Vec<String> {
         vec![
@@ -228,25 +228,100 @@ impl Property for C14 {
     }
     fn phases(&self, tier: Tier) -> Vec<Phase> {
         match tier {
-            Tier::Quick => vec![Phase::new("templates", 6_000, Profile::Checked), Phase::new("trees", 12_000, Profile::Checked), Phase::new("wallets", 1_500, Profile::Checked), Phase::new("fee-loop", 1_500, Profile::Checked).budget(30_000), Phase::new("deep-chains", 108, Profile::Checked).budget(15_000)],
+            Tier::Quick => vec![Phase::new("templates", 6_000, Profile::Checked), Phase::new("trees", 12_000, Profile::Checked), Phase::new("wallets", 1_500, Profile::Checked), Phase::new("fee-loop", 1_500, Profile::Checked).budget(30_000), Phase::new("deep-chains", 108, Profile::Checked).budget(15_000), Phase::new("directives", 297, Profile::Checked).exhaustive(), Phase::new("deep-native-script", 8, Profile::Checked).exhaustive()],
             Tier::Thorough => vec![
                 Phase::new("templates", 200_000, Profile::Checked),
                 Phase::new("trees", 400_000, Profile::Checked),
                 Phase::new("wallets", 60_000, Profile::Checked),
                 Phase::new("fee-loop", 60_000, Profile::Checked).budget(30_000),
                 Phase::new("deep-chains", 540, Profile::Checked).budget(15_000),
+                Phase::new("directives", 297, Profile::Checked).exhaustive(),
+                Phase::new("directives-release", 297, Profile::Release).exhaustive(),
+                Phase::new("deep-native-script", 8, Profile::Checked).exhaustive(),
                 Phase::new("templates-release", 100_000, Profile::Release),
                 Phase::new("trees-release", 200_000, Profile::Release),
             ],
         }
     }
     fn required_features(&self, _tier: Tier) -> Vec<String> {
-        ["stage/apply_args", "stage/reduce", "stage/compile", "stage/inputs::resolve", "stage/resolve_tx", "compile/ok", "compile/err", "resolve_tx/ok", "resolve_tx/err", "pparams/missing-cost-model", "stage/fee-loop:resolve_tx", "fee-loop/ok", "deep-chains/depth-64", "deep-chains/returned"].iter().map(|s| s.to_string()).collect()
+        ["stage/apply_args", "stage/reduce", "stage/compile", "stage/inputs::resolve", "stage/resolve_tx", "compile/ok", "compile/err", "resolve_tx/ok", "resolve_tx/err", "pparams/missing-cost-model", "stage/fee-loop:resolve_tx", "fee-loop/ok", "deep-chains/depth-64", "deep-chains/returned", "directives/compile-ok", "directives/compile-err"].iter().map(|s| s.to_string()).collect()
     }
     fn run_case(&self, ctx: &mut Ctx, phase: &str, idx: u64, rng: &mut Rng) {
         let pp = pparams(rng);
         if pp.cost_models.len() < 3 {
             ctx.count("pparams/missing-cost-model");
+        }
+        let deep_native = phase == "deep-native-script";
+        if phase == "directives" || phase == "directives-release" || deep_native {
+            // chain-specific directives that carry a script: every version number x every kind of script bytes
+            // (valid, garbage, empty, deeply nested) through compile
+            use tir::Expression as E;
+            let versions: [i128; 11] = [0, 1, 2, 3, 4, 255, 256, 257, -1, i128::MAX, 1 << 64];
+            let native_sig: Vec<u8> = [vec![0x82, 0x00, 0x58, 0x1c], vec![0x11; 28]].concat();
+            let nested = |d: usize| -> Vec<u8> {
+                // all-of [ all-of [ ... sig ... ] ]
+                let mut b = vec![];
+                for _ in 0..d {
+                    b.extend_from_slice(&[0x82, 0x01, 0x81]);
+                }
+                b.extend_from_slice(&native_sig);
+                b
+            };
+            let scripts: Vec<(&str, Vec<u8>)> = vec![
+                ("valid-native", native_sig.clone()),
+                ("empty", vec![]),
+                ("garbage-2", vec![0xde, 0xad]),
+                ("garbage-64", rng.bytes(64)),
+                ("truncated-native", native_sig[..10].to_vec()),
+                ("nested-native-10", nested(10)),
+                ("nested-native-300", nested(300)),
+                ("nested-native-5000", nested(5_000)),
+                ("plutus-like", [vec![0x59, 0x01, 0x00], rng.bytes(256)].concat()),
+            ];
+            let kinds = ["cardano_publish", "plutus_witness", "native_witness"];
+            let n = versions.len() * scripts.len();
+            let (kind, version, sname, script) = if deep_native {
+                // native scripts nested far beyond what any ledger accepts, where a native script is decoded
+                let d = [20_000usize, 50_000, 100_000, 200_000][(idx % 4) as usize];
+                (if idx / 4 == 0 { "native_witness" } else { "cardano_publish" }, 0i128, "nested-native-deep", nested(d))
+            } else {
+                let (sname, script) = scripts[idx as usize % scripts.len()].clone();
+                (kinds[(idx as usize / n) % kinds.len()], versions[(idx as usize % n) / scripts.len()], sname, script)
+            };
+            let mut data: std::collections::HashMap<String, E> = std::collections::HashMap::new();
+            data.insert("version".into(), E::Number(version));
+            data.insert("script".into(), E::Bytes(script.clone()));
+            if kind == "cardano_publish" {
+                data.insert("to".into(), E::Address([vec![0x60], vec![0x22; 28]].concat()));
+                data.insert("amount".into(), E::Assets(vec![tir::AssetExpr { policy: E::None, asset_name: E::None, amount: E::Number(2_000_000) }]));
+            }
+            let mut utxos = std::collections::HashSet::new();
+            utxos.insert(Utxo { r#ref: UtxoRef { txid: vec![7; 32], index: 0 }, address: [vec![0x60], vec![0x11; 28]].concat(), assets: tx3_tir::model::assets::CanonicalAssets::from_naked_amount(9_000_000), datum: None, script: None });
+            let tx = tir::Tx {
+                fees: E::Number(200_000),
+                references: vec![],
+                inputs: vec![tir::Input { name: "source".into(), utxos: E::UtxoSet(utxos), redeemer: E::None }],
+                outputs: vec![tir::Output { address: E::Address([vec![0x60], vec![0x22; 28]].concat()), datum: E::None, amount: E::Assets(vec![tir::AssetExpr { policy: E::None, asset_name: E::None, amount: E::Number(3_000_000) }]), optional: false }],
+                validity: None,
+                mints: vec![],
+                burns: vec![],
+                adhoc: vec![tir::AdHocDirective { name: kind.into(), data }],
+                collateral: vec![],
+                signers: None,
+                metadata: vec![],
+            };
+            ctx.count(&format!("directives/{kind}"));
+            ctx.count(&format!("directives/script:{sname}"));
+            ctx.eval();
+            let mut compiler = env::compiler(&PP::default());
+            let r = crate::panics::catch(|| compiler.compile(&AnyTir::V1Beta0(tx.clone())).map(|c| c.payload.len()).map_err(|e| e.to_string()));
+            match r {
+                Ok(Ok(_)) => ctx.count("directives/compile-ok"),
+                Ok(Err(_)) => ctx.count("directives/compile-err"),
+                Err(p) => ctx.violation(format!("panic:directives:{}", p.signature()), json!({"phase": phase, "directive": kind, "version": version.to_string(), "script": sname, "script_len": script.len(), "panic": p.message})),
+            }
+            ctx.nontrivial(fnv64(format!("{kind}{version}{sname}").as_bytes()));
+            return;
         }
         if phase == "deep-chains" {
             // long chains of operations over a value that is still pending (a parameter, an input): every stage
